@@ -1,4 +1,5 @@
 from fw import PropertyCheck
+import fam_world
 import fam_registry
 
 
@@ -9,12 +10,14 @@ class Check(PropertyCheck):
             "for 'equal key => same unordered set'; lookups in registries built with the real PAIRS map over a "
             "prefix-free universe, querying registered and unregistered sets in both orders; the KF-key-concat "
             "witness.  Non-trivial = every case.  Distinct by input.")
+    rule_world = 'plus world histories'
     modelled = ["MockApi address codec: the harness reports as_bytes, the model works on those bytes",
                 "world level (factory CreatePair/reply, pair self-description, decimals) is covered by the world family"]
     assumptions = ["known finding KF-key-concat: identifier sets whose sorted concatenations coincide are exempted and counted"]
 
     def families(self, rng, tier):
-        return [("registry.keys_and_lookup", fam_registry.key_cases(rng, tier))]
+        return [("registry.keys_and_lookup", fam_registry.key_cases(rng, tier)),
+                ("world.registry", fam_world.registry_histories(rng, tier))]
 
     def witnesses(self):
         return {"KF-key-concat": fam_registry.collision_witness()}
